@@ -43,14 +43,14 @@ theorem Terminal.no_step {g : G} {α β : List SSym} (hα : Terminal α) (s : St
     obtain ⟨t, ht⟩ := hα (Sym.nonterm p.head) (by simp)
     cases ht
 
-theorem DerivesIn.of_terminal {g : G} {n : Nat} {α β : List SSym} (hα : Terminal α) (d : DerivesIn g n α β) :
+theorem derivesIn_of_terminal {g : G} {n : Nat} {α β : List SSym} (hα : Terminal α) (d : DerivesIn g n α β) :
     n = 0 ∧ β = α := by
   cases d with
   | refl => exact ⟨rfl, rfl⟩
   | head s _ => exact (hα.no_step s).elim
 
 /-- the first step of a single non-terminal that ends in a terminal string -/
-theorem DerivesIn.of_single {g : G} {n : Nat} {A : String} {γ : List SSym} (hγ : Terminal γ)
+theorem derivesIn_of_single {g : G} {n : Nat} {A : String} {γ : List SSym} (hγ : Terminal γ)
     (d : DerivesIn g n [Sym.nonterm A] γ) :
     ∃ k p, n = k + 1 ∧ p ∈ g.prods ∧ p.head = A ∧ DerivesIn g k p.body γ := by
   cases d with
@@ -62,7 +62,7 @@ theorem DerivesIn.of_single {g : G} {n : Nat} {A : String} {γ : List SSym} (hγ
     exact ⟨k, p, rfl, hp, hh, d'⟩
 
 /-- three-way split of a derivation of a terminal string from `u ++ [X] ++ v` -/
-theorem DerivesIn.split3 {g : G} {n : Nat} {u v : List SSym} {X : SSym} {γ : List SSym} (hγ : Terminal γ)
+theorem derivesIn_split3 {g : G} {n : Nat} {u v : List SSym} {X : SSym} {γ : List SSym} (hγ : Terminal γ)
     (d : DerivesIn g n (u ++ X :: v) γ) :
     ∃ γu γx γv ku kx kv, γ = γu ++ γx ++ γv ∧ Terminal γu ∧ Terminal γx ∧ Terminal γv ∧
       DerivesIn g ku u γu ∧ DerivesIn g kx [X] γx ∧ DerivesIn g kv v γv ∧ ku + kx + kv = n := by
@@ -77,9 +77,9 @@ theorem DerivesIn.split3 {g : G} {n : Nat} {u v : List SSym} {X : SSym} {γ : Li
 /-- head-first induction for "every terminal string derivable in `g` is derivable in `g'`", all sentential
 forms at once: it suffices to handle one first step followed by a shorter derivation -/
 theorem transfer_of_step {g g' : G}
-    (hstep : ∀ (n : Nat), (∀ m, m < n → ∀ α γ, Terminal γ → DerivesIn g m α γ → Derives g' α γ) →
+    (hstep : ∀ (n : Nat), (∀ m, m ≤ n → ∀ α γ, Terminal γ → DerivesIn g m α γ → Derives g' α γ) →
       ∀ (u v : List SSym) (p : SProd) (γ : List SSym), p ∈ g.prods → Terminal γ →
-        DerivesIn g n (u ++ p.body ++ v) γ → n + 1 = n + 1 → Derives g' (u ++ [Sym.nonterm p.head] ++ v) γ) :
+        DerivesIn g n (u ++ p.body ++ v) γ → Derives g' (u ++ [Sym.nonterm p.head] ++ v) γ) :
     ∀ (n : Nat) (α γ : List SSym), Terminal γ → DerivesIn g n α γ → Derives g' α γ := by
   intro n
   induction n using Nat.strongRecOn with
@@ -92,7 +92,7 @@ theorem transfer_of_step {g g' : G}
       cases s with
       | mk u v p hp =>
         subst hx
-        exact hstep k (fun m hm => ih m (by omega)) u v p γ hp hγ d' rfl
+        exact hstep k (fun m hm => ih m (by omega)) u v p γ hp hγ d'
 
 /-! ## `lrSubst` -/
 
@@ -137,17 +137,18 @@ theorem lrSubst_spec (g : G) (Ai Aj : String) :
   · right
     refine ⟨rfl, rfl, rfl, ?_⟩
     intro q
-    simp only [mem_insAll, List.mem_filter, List.mem_flatMap, List.mem_map, decide_eq_true_eq, mem_AiAj]
+    rw [mem_insAll, List.mem_filter, List.mem_flatMap]
     constructor
-    · rintro (⟨h1, h2⟩ | ⟨p, hp, r, hr, rfl⟩)
-      · exact Or.inl ⟨h1, h2⟩
+    · rintro (⟨h1, h2⟩ | ⟨p, hp, hq⟩)
+      · exact Or.inl ⟨h1, fun hc => (of_decide_eq_true h2) (mem_AiAj.2 hc)⟩
       · right
+        obtain ⟨r, hr, rfl⟩ := List.mem_map.1 hq
         have hr' := List.mem_filter.1 hr
-        exact ⟨p, r, hp, hr'.1, by simpa using hr'.2, rfl⟩
+        exact ⟨p, r, mem_AiAj.1 hp, hr'.1, by simpa using hr'.2, rfl⟩
     · rintro (⟨h1, h2⟩ | ⟨p, r, hp, hr1, hr2, rfl⟩)
-      · exact Or.inl ⟨h1, h2⟩
+      · exact Or.inl ⟨h1, decide_eq_true (fun hc => h2 (mem_AiAj.1 hc))⟩
       · right
-        exact ⟨p, hp, r, List.mem_filter.2 ⟨hr1, by simpa using hr2⟩, rfl⟩
+        exact ⟨p, mem_AiAj.2 hp, List.mem_map.2 ⟨r, List.mem_filter.2 ⟨hr1, by simpa using hr2⟩, rfl⟩⟩
 
 theorem lrSubst_start (g : G) (Ai Aj : String) : (lrSubst g Ai Aj).start = g.start := by
   rcases lrSubst_spec g Ai Aj with h | h
@@ -202,14 +203,14 @@ theorem lrSubst_language (g : G) (Ai Aj : String) (w : List String) :
     · intro d
       obtain ⟨n, dn⟩ := d.toDerivesIn
       refine transfer_of_step (g := g) (g' := lrSubst g Ai Aj) ?_ n _ _ (Terminal.of_map w) dn
-      intro n ih u v p γ hpg hγ d' _
+      intro n ih u v p γ hpg hγ d'
       by_cases hc : IsAiAj g Ai Aj p
       · -- a removed production: find the first step of the `Aⱼ` it introduced
         obtain ⟨_, hp2, tl, hp3⟩ := hc
         have d'' : DerivesIn g n (u ++ Sym.nonterm Aj :: (tl ++ v)) γ := by
           rw [hp3] at d'; simpa [List.append_assoc] using d'
-        obtain ⟨γu, γx, γv, ku, kx, kv, hγe, tu, tx, tv, du, dx, dv, hk⟩ := d''.split3 hγ
-        obtain ⟨k, r, hkx, hr1, hr2, dr⟩ := dx.of_single tx
+        obtain ⟨γu, γx, γv, ku, kx, kv, hγe, tu, tx, tv, du, dx, dv, hk⟩ := derivesIn_split3 hγ d''
+        obtain ⟨k, r, hkx, hr1, hr2, dr⟩ := derivesIn_of_single tx dx
         have e1 := ih ku (by omega) _ _ tu du
         have e2 := ih k (by omega) _ _ tx dr
         have e3 := ih kv (by omega) _ _ tv dv
